@@ -3,6 +3,7 @@
   `if_true`/`if_false`, the branches, `if_join`.
 -/
 import CprocVerif.Lemmas.Lower2Seq
+import CprocVerif.Lemmas.Lower2Expr3
 
 set_option linter.unusedSimpArgs false
 
@@ -35,19 +36,20 @@ variable (T : Stat) {s : Store} {out : CSem2.Outcome} {lp : Bool × Bool} {brk c
   {nd nd' : Nat} {pre post : List Item} {env : Env} {M : Mem}
 
 /-- controlling expression and branch: control arrives at the label selected by the value -/
-theorem sim_branch (hp : Pos T c nd pre) (e : Expr) (k : Nat)
-    (hext : Ext T (((c.upd (exprOut T.S.cs c e).ctx).addBlocks k).upd
-      (jnzOut T.S.cs ((c.upd (exprOut T.S.cs c e).ctx).addBlocks k) e.ty (exprOut T.S.cs c e).val).ctx))
-    (hwt : e.wt (T.vtys.take nd) = true) {v : Int} (hev : evalE T.S.cs s e = some v)
+theorem sim_branch (n : Nat) (hc : CallOK T n) (hp : Pos T c nd pre) (e : Expr3) (k : Nat)
+    (hext : Ext T (((c.upd (exprOut3 T.S.cs c e).ctx).addBlocks k).upd
+      (jnzOut T.S.cs ((c.upd (exprOut3 T.S.cs c e).ctx).addBlocks k) e.ty (exprOut3 T.S.cs c e).val).ctx))
+    (hwt : e.wt (T.vtys.take nd) = true) (hok : efrag T e) {v : Int}
+    (hev : evalE3 T.S.cs (callOf T.P fun s' st' => exec T.S.cs T.P n s' st') s e = some v)
     {l lt lz : String} {ph : List Phi}
-    (hits : T.S.its = pre ++ (exprOut T.S.cs c e).items ++
-      (jnzOut T.S.cs ((c.upd (exprOut T.S.cs c e).ctx).addBlocks k) e.ty (exprOut T.S.cs c e).val).items ++
-      .lbl (some (.jnz (jnzOut T.S.cs ((c.upd (exprOut T.S.cs c e).ctx).addBlocks k) e.ty
-        (exprOut T.S.cs c e).val).val lt lz)) l ph :: post)
+    (hits : T.S.its = pre ++ (exprOut3 T.S.cs c e).items ++
+      (jnzOut T.S.cs ((c.upd (exprOut3 T.S.cs c e).ctx).addBlocks k) e.ty (exprOut3 T.S.cs c e).val).items ++
+      .lbl (some (.jnz (jnzOut T.S.cs ((c.upd (exprOut3 T.S.cs c e).ctx).addBlocks k) e.ty
+        (exprOut3 T.S.cs c e).val).val lt lz)) l ph :: post)
     (ht : CanJump T.S lt) (hz : CanJump T.S lz) (inv : SInv T.M0 T.S.cs T.cnts T.σ T.vtys s env M) :
     ∃ n env' st, T.Reach n (T.at env M pre) st ∧ SInv T.M0 T.S.cs T.cnts T.σ T.vtys s env' M ∧
       AtLabel T.S (if v ≠ 0 then lt else lz) env' M st := by
-  obtain ⟨n1, env1, r, w, hreach, inv1, hval, hw, hwv⟩ := sim_condOut T hp e k hext hwt hev hits inv
+  obtain ⟨n1, env1, r, w, hreach, inv1, hval, hw, hwv⟩ := sim_condOut3 T n hc hp e k hext hwt hok hev hits inv
   obtain ⟨st, hstep, hat⟩ := step_jnz_item T hits ht hz M hval hw
   refine ⟨n1 + 1, env1, st, hreach.trans (Reach.one hstep), inv1, ?_⟩
   by_cases hv0 : v ≠ 0
@@ -60,7 +62,7 @@ theorem sim_branch (hp : Pos T c nd pre) (e : Expr) (k : Nat)
     rw [this] at hat
     simpa [hv0] using hat
 
-theorem sim_ite (n : Nat) (ih : SimStmt T n) (e : Expr) (a : Stmt)
+theorem sim_ite (n : Nat) (hc : CallOK T n) (ih : SimStmt T n) (e : Expr3) (a : Stmt)
     (hex : exec T.S.cs T.P (n + 1) s (.ite e a) = some out) (hfr : frag T.P T.cnts (.ite e a) = true)
     (hwt : Stmt.wt T.vtys T.ret lp.1 lp.2 nd (.ite e a) = some nd') (hp : Pos T c nd pre)
     (hext : Ext T (funcstmt T.S.cs brk cont (.ite e a) c).ctx)
@@ -69,7 +71,9 @@ theorem sim_ite (n : Nat) (ih : SimStmt T n) (e : Expr) (a : Stmt)
     (inv : SInv T.M0 T.S.cs T.cnts T.σ T.vtys s env M) :
     Post T lp brk cont (T.at env M pre) (pre ++ (funcstmt T.S.cs brk cont (.ite e a) c).items)
       (funcstmt T.S.cs brk cont (.ite e a) c).ctx out := by
-  simp only [frag] at hfr
+  simp only [frag, Bool.and_eq_true] at hfr
+  have hfe : efrag T e := by simp only [efrag, Bool.and_eq_true]; exact hfr.1
+  have hfr := hfr.2
   simp only [Stmt.wt] at hwt
   split at hwt
   · rename_i hwe
@@ -77,15 +81,15 @@ theorem sim_ite (n : Nat) (ih : SimStmt T n) (e : Expr) (a : Stmt)
     obtain ⟨hna, hca⟩ := wt_noDead _ _ a _ _ _ _ hwt
     simp only [exec, Option.bind_eq_some_iff] at hex
     obtain ⟨v, hev, hex⟩ := hex
-    have hj2 : ((c.upd (exprOut T.S.cs c e).ctx).addBlocks 2).jump = none := hp.jump
-    simp only [funcstmt, lowerE_eq T.S.cs hp.jump, lowerJnz_eq T.S.cs hj2] at hext hits ⊢
-    have ge := exprOut_good T.S.cs c e
-    have sj := jnzArg_straight T.S.cs ((c.upd (exprOut T.S.cs c e).ctx).addBlocks 2).ctx e.ty
-      (exprOut T.S.cs c e).val
-    have ga := funcstmt_good T.S.cs a brk cont ((((c.upd (exprOut T.S.cs c e).ctx).addBlocks 2).upd
-      (jnzOut T.S.cs ((c.upd (exprOut T.S.cs c e).ctx).addBlocks 2) e.ty (exprOut T.S.cs c e).val).ctx).atLabel
-        (lblName "if_true" ((c.upd (exprOut T.S.cs c e).ctx).blockid + 1))) rfl hna
-    generalize hoe : exprOut T.S.cs c e = oe at *
+    have hj2 : ((c.upd (exprOut3 T.S.cs c e).ctx).addBlocks 2).jump = none := hp.jump
+    simp only [funcstmt, lowerE3_eq T.S.cs hp.jump, lowerJnz_eq T.S.cs hj2] at hext hits ⊢
+    have ge := exprOut3_good T.S.cs c e
+    have sj := jnzArg_straight T.S.cs ((c.upd (exprOut3 T.S.cs c e).ctx).addBlocks 2).ctx e.ty
+      (exprOut3 T.S.cs c e).val
+    have ga := funcstmt_good T.S.cs a brk cont ((((c.upd (exprOut3 T.S.cs c e).ctx).addBlocks 2).upd
+      (jnzOut T.S.cs ((c.upd (exprOut3 T.S.cs c e).ctx).addBlocks 2) e.ty (exprOut3 T.S.cs c e).val).ctx).atLabel
+        (lblName "if_true" ((c.upd (exprOut3 T.S.cs c e).ctx).blockid + 1))) rfl hna
+    generalize hoe : exprOut3 T.S.cs c e = oe at *
     change Straight _ (jnzOut T.S.cs ((c.upd oe.ctx).addBlocks 2) e.ty oe.val) at sj
     generalize hoj : jnzOut T.S.cs ((c.upd oe.ctx).addBlocks 2) e.ty oe.val = oj at *
     generalize hoa : funcstmt T.S.cs brk cont a ((((c.upd oe.ctx).addBlocks 2).upd oj.ctx).atLabel
@@ -109,7 +113,7 @@ theorem sim_ite (n : Nat) (ih : SimStmt T n) (e : Expr) (a : Stmt)
         labelItem]
     have hct : CanJump T.S (lblName "if_true" ((c.upd oe.ctx).blockid + 1)) := canJump_item T.S hitsb
     have hcf : CanJump T.S (lblName "if_false" ((c.upd oe.ctx).blockid + 2)) := canJump_item T.S hits2
-    obtain ⟨n1, env1, st, hreach, inv1, hat⟩ := sim_branch T hp e 2 (by rw [hoe, hoj]; exact hextc) hwe hev
+    obtain ⟨n1, env1, st, hreach, inv1, hat⟩ := sim_branch T n hc hp e 2 (by rw [hoe, hoj]; exact hextc) hwe hfe hev
       (by rw [hoe, hoj]; exact hitsb) hct hcf inv
     have l1 := ge.lastid; have l2 := sj.lastid; have b2 := sj.blockid
     unf at l1 l2 b2
@@ -153,7 +157,7 @@ theorem sim_ite (n : Nat) (ih : SimStmt T n) (e : Expr) (a : Stmt)
       exact hreach
   · cases hwt
 
-theorem sim_itee (n : Nat) (ih : SimStmt T n) (e : Expr) (a b : Stmt)
+theorem sim_itee (n : Nat) (hc : CallOK T n) (ih : SimStmt T n) (e : Expr3) (a b : Stmt)
     (hex : exec T.S.cs T.P (n + 1) s (.itee e a b) = some out) (hfr : frag T.P T.cnts (.itee e a b) = true)
     (hwt : Stmt.wt T.vtys T.ret lp.1 lp.2 nd (.itee e a b) = some nd') (hp : Pos T c nd pre)
     (hext : Ext T (funcstmt T.S.cs brk cont (.itee e a b) c).ctx)
@@ -163,6 +167,8 @@ theorem sim_itee (n : Nat) (ih : SimStmt T n) (e : Expr) (a b : Stmt)
     Post T lp brk cont (T.at env M pre) (pre ++ (funcstmt T.S.cs brk cont (.itee e a b) c).items)
       (funcstmt T.S.cs brk cont (.itee e a b) c).ctx out := by
   simp only [frag, Bool.and_eq_true] at hfr
+  have hfe : efrag T e := by simp only [efrag, Bool.and_eq_true]; exact hfr.1
+  have hfr := hfr.2
   simp only [Stmt.wt] at hwt
   split at hwt
   · rename_i hwe
@@ -173,15 +179,15 @@ theorem sim_itee (n : Nat) (ih : SimStmt T n) (e : Expr) (a b : Stmt)
     obtain ⟨hnb, hcb⟩ := wt_noDead _ _ b _ _ _ _ hwb
     simp only [exec, Option.bind_eq_some_iff] at hex
     obtain ⟨v, hev, hex⟩ := hex
-    have hj2 : ((c.upd (exprOut T.S.cs c e).ctx).addBlocks 2).jump = none := hp.jump
-    simp only [funcstmt, lowerE_eq T.S.cs hp.jump, lowerJnz_eq T.S.cs hj2] at hext hits ⊢
-    have ge := exprOut_good T.S.cs c e
-    have sj := jnzArg_straight T.S.cs ((c.upd (exprOut T.S.cs c e).ctx).addBlocks 2).ctx e.ty
-      (exprOut T.S.cs c e).val
-    have ga := funcstmt_good T.S.cs a brk cont ((((c.upd (exprOut T.S.cs c e).ctx).addBlocks 2).upd
-      (jnzOut T.S.cs ((c.upd (exprOut T.S.cs c e).ctx).addBlocks 2) e.ty (exprOut T.S.cs c e).val).ctx).atLabel
-        (lblName "if_true" ((c.upd (exprOut T.S.cs c e).ctx).blockid + 1))) rfl hna
-    generalize hoe : exprOut T.S.cs c e = oe at *
+    have hj2 : ((c.upd (exprOut3 T.S.cs c e).ctx).addBlocks 2).jump = none := hp.jump
+    simp only [funcstmt, lowerE3_eq T.S.cs hp.jump, lowerJnz_eq T.S.cs hj2] at hext hits ⊢
+    have ge := exprOut3_good T.S.cs c e
+    have sj := jnzArg_straight T.S.cs ((c.upd (exprOut3 T.S.cs c e).ctx).addBlocks 2).ctx e.ty
+      (exprOut3 T.S.cs c e).val
+    have ga := funcstmt_good T.S.cs a brk cont ((((c.upd (exprOut3 T.S.cs c e).ctx).addBlocks 2).upd
+      (jnzOut T.S.cs ((c.upd (exprOut3 T.S.cs c e).ctx).addBlocks 2) e.ty (exprOut3 T.S.cs c e).val).ctx).atLabel
+        (lblName "if_true" ((c.upd (exprOut3 T.S.cs c e).ctx).blockid + 1))) rfl hna
+    generalize hoe : exprOut3 T.S.cs c e = oe at *
     change Straight _ (jnzOut T.S.cs ((c.upd oe.ctx).addBlocks 2) e.ty oe.val) at sj
     generalize hoj : jnzOut T.S.cs ((c.upd oe.ctx).addBlocks 2) e.ty oe.val = oj at *
     generalize hoa : funcstmt T.S.cs brk cont a ((((c.upd oe.ctx).addBlocks 2).upd oj.ctx).atLabel
@@ -224,7 +230,7 @@ theorem sim_itee (n : Nat) (ih : SimStmt T n) (e : Expr) (a b : Stmt)
     have hct : CanJump T.S (lblName "if_true" ((c.upd oe.ctx).blockid + 1)) := canJump_item T.S hitsb
     have hcf : CanJump T.S (lblName "if_false" ((c.upd oe.ctx).blockid + 2)) := canJump_item T.S hits2
     have hcj : CanJump T.S (lblName "if_join" (oa.ctx.blockid + 1)) := canJump_item T.S hits3
-    obtain ⟨k1, env1, st, hreach, inv1, hat⟩ := sim_branch T hp e 2 (by rw [hoe, hoj]; exact hextc) hwe hev
+    obtain ⟨k1, env1, st, hreach, inv1, hat⟩ := sim_branch T n hc hp e 2 (by rw [hoe, hoj]; exact hextc) hwe hfe hev
       (by rw [hoe, hoj]; exact hitsb) hct hcf inv
     have l1 := ge.lastid; have l2 := sj.lastid; have b2 := sj.blockid; have b3 := ga.blockid
     unf at l1 l2 b2 b3
